@@ -176,7 +176,7 @@ fn gen_ordering(rng: &mut Rng, names: &[String]) -> String {
 }
 
 fn gen_inv(rng: &mut Rng) -> Inv {
-    let pool: &[&str] = if rng.chance(1, 4) { &gen::FANCY_NAMES } else if rng.chance(1, 8) { &gen::MARK_NAMES } else { &gen::PLAIN_NAMES };
+    let pool: &[&str] = if rng.chance(1, 4) { &gen::FANCY_NAMES } else if rng.chance(1, 8) { gen::rare_pool(rng.next() as u64) } else { &gen::PLAIN_NAMES };
     let k = 1 + rng.usize(6);
     let mut names: Vec<&str> = pool.to_vec();
     rng.shuffle(&mut names);
@@ -199,7 +199,7 @@ fn gen_inv(rng: &mut Rng) -> Inv {
     let mode = rng.below(10);
     Inv {
         text,
-        channel: rng.below(7) as u8,
+        channel: rng.below(8) as u8,
         ordering,
         filter,
         t: mode != 1,
@@ -219,7 +219,7 @@ fn job(ctx: &Ctx, job: usize, iters: u64) -> Stats {
         let Some(base) = check_inv(ctx, &mut st, &inv, &tag) else { continue };
         // the same formula through the other channels and with -b N: identical stdout
         if i % 3 == 0 {
-            for ch in 0..7u8 {
+            for ch in 0..8u8 {
                 if ch == inv.channel {
                     continue;
                 }
@@ -357,6 +357,92 @@ fn wide_case(ctx: &Ctx, st: &mut Stats, n: usize, shape: &str, filter: Option<&s
     st.nt.insert(mix(util::hash_str(shape), mix(n as u64, util::hash_str(fk) ^ channel as u64)));
 }
 
+/// MANY ROWS: the parity of n variables has 2^n rows without a single `Any` (more than 65 535 of
+/// them for n >= 17). Every row is a total assignment: its value must be the parity, no assignment
+/// may appear twice, and the number of rows is 2^n (2^(n-1) under a filter).
+fn many_rows_case(ctx: &Ctx, st: &mut Stats, n: usize, filter: Option<&str>, with_v: bool, channel: u8) {
+    use crate::cli::Cell;
+    let names: Vec<String> = (0..n).map(|i| format!("p{:02}", i)).collect();
+    let text = names.join(" ^ ");
+    let inv = Inv { text, channel, filter: filter.map(|s| s.to_string()), t: true, v: with_v, ..Default::default() };
+    st.evals += 1;
+    st.bump("many_row_tables");
+    let out = invoke(ctx, &inv, &format!("rows-{}-{}-{}", n, filter.unwrap_or("none"), channel));
+    let case = || json!({"kind": "many-rows", "n": n, "filter": filter, "v": with_v, "channel": channel});
+    if out.timed_out || out.budget_exceeded() {
+        st.bump("out_of_budget(inconclusive case)");
+        return;
+    }
+    let desc = format!("rsbdd `p00 ^ .. ^ p{:02}`{}{}", n - 1, filter.map(|f| format!(" -f {}", f)).unwrap_or_default(), if with_v { " -t -v" } else { " -t" });
+    if !out.ok() {
+        st.violate("c10.run", format!("C10:run-failed:{}", out.panic_site()), format!("{} failed: {}", desc, out.status_string()), case());
+        return;
+    }
+    let so = out.stdout_str();
+    let parsed = match parse_stdout(&so, &inv) {
+        Ok(p) => p,
+        Err(e) => {
+            st.violate("c10.format", "C10:unparsable-output".into(), format!("{}: {}", desc, e), case());
+            return;
+        }
+    };
+    let table = parsed.table.unwrap();
+    let mut sorted = table.header.clone();
+    sorted.sort();
+    if sorted != names {
+        st.violate("c10.table", "C10:table:header".into(), format!("{}: the header does not list exactly the {} variables", desc, n), case());
+        return;
+    }
+    let fk = filter_kind(&inv.filter).unwrap_or("any");
+    let mut seen = vec![false; 1usize << n];
+    for (k, (cells, res)) in table.rows.iter().enumerate() {
+        let mut idx = 0usize;
+        let mut ones = 0u32;
+        for (i, c) in cells.iter().enumerate() {
+            match c {
+                Cell::True => {
+                    idx |= 1 << i;
+                    ones += 1;
+                }
+                Cell::False => {}
+                Cell::Any => {
+                    st.violate("c10.table", "C10:table:row-value".into(), format!("{}: row {} leaves a variable open, but a parity depends on every variable", desc, k + 1), case());
+                    return;
+                }
+            }
+        }
+        if (ones % 2 == 1) != *res {
+            st.violate("c10.table", "C10:table:row-value".into(), format!("{}: row {} says {} for an assignment with {} true variables", desc, k + 1, res, ones), case());
+            return;
+        }
+        if (fk == "true" && !*res) || (fk == "false" && *res) {
+            st.violate("c10.table", "C10:table:filter".into(), format!("{}: row {} contradicts the filter", desc, k + 1), case());
+            return;
+        }
+        if seen[idx] {
+            st.violate("c10.table", "C10:table:rows-overlap".into(), format!("{}: row {} repeats an earlier row", desc, k + 1), case());
+            return;
+        }
+        seen[idx] = true;
+    }
+    let want = if fk == "any" { 1usize << n } else { 1usize << (n - 1) };
+    if table.rows.len() != want {
+        st.violate("c10.table", "C10:table:coverage".into(), format!("{}: {} rows, expected {} (filter {})", desc, table.rows.len(), want, fk), case());
+        return;
+    }
+    if with_v {
+        let lines = parsed.vlines.len();
+        let open: usize = parsed.vlines.iter().map(|items| items.iter().filter(|x| x.1).count()).sum();
+        if lines != 1usize << (n - 1) || open != 0 {
+            st.violate("c10.vlines", "C10:-v:coverage".into(), format!("{}: {} -v lines ({} open entries), the formula has {} satisfying assignments, all total", desc, lines, open, 1usize << (n - 1)), case());
+            return;
+        }
+    }
+    st.add("rows_checked", table.rows.len() as u64);
+    st.max("max_rows_in_one_table", table.rows.len() as u64);
+    st.nt.insert(mix(0x7075, mix(n as u64, util::hash_str(fk) ^ with_v as u64)));
+}
+
 pub fn run(ctx: &Ctx) -> (Stats, Spec) {
     let iters = ctx.tier.pick(500u64, 8_000u64);
     let parts = util::par_jobs(16, |j| job(ctx, j, iters));
@@ -377,6 +463,15 @@ pub fn run(ctx: &Ctx) -> (Stats, Spec) {
         s
     });
     st.merge(crate::report::merge_all(parts));
+    // tables with more rows than a 16-bit counter holds
+    let many: Vec<(usize, Option<&str>, bool, u8)> = ctx.tier.pick(vec![(17, None, false, 0), (17, Some("t"), true, 2), (16, Some("f"), false, 1)], vec![(17, None, true, 0), (17, Some("t"), true, 2), (17, Some("f"), false, 1), (18, None, false, 1), (18, Some("true"), true, 0), (16, None, true, 5)]);
+    let parts = util::par_jobs(many.len(), |j| {
+        let mut s = Stats::new();
+        let (n, f, v, ch) = many[j];
+        many_rows_case(ctx, &mut s, n, f, v, ch);
+        s
+    });
+    st.merge(crate::report::merge_all(parts));
     // fixed probes: every accepted filter spelling, 0 free variables, long and non-ASCII names, superset orderings
     let mut k = 0;
     for f in TRUE_SPELLINGS.iter().chain(FALSE_SPELLINGS.iter()).chain(ANY_SPELLINGS.iter()) {
@@ -392,9 +487,17 @@ pub fn run(ctx: &Ctx) -> (Stats, Spec) {
         let inv = Inv { text: text.into(), ordering: Some(ord.into()), t: true, v: true, r: true, ..Default::default() };
         check_inv(ctx, &mut st, &inv, &format!("fixed-{}", k));
     }
+    // every name length from 1 to 130 bytes: the full table judgement (padding and column widths depend on it)
+    for len in 1..=130usize {
+        k += 1;
+        let name = if len % 3 == 2 && len % 2 == 0 { "é".repeat(len / 2) } else { "w".repeat(len) };
+        let inv = Inv { text: format!("({} | o) & (p | -{})", name, name), t: true, v: len % 2 == 0, filter: [None, Some("t".to_string()), Some("f".to_string())][len % 3].clone(), ..Default::default() };
+        check_inv(ctx, &mut st, &inv, &format!("namelen-{}", k));
+        st.bump("name_lengths_swept");
+    }
     // texts that begin AND end with a prime (part of a name, not a quotation mark)
     for text in ["'a & a'", "'x'", "'p | -q'", "'q", "b'", "'a' & 'b'", "''"] {
-        for ch in 0..7u8 {
+        for ch in 0..8u8 {
             k += 1;
             let inv = Inv { text: text.into(), t: true, v: true, channel: ch, ..Default::default() };
             check_inv(ctx, &mut st, &inv, &format!("primes-{}", k));
@@ -423,7 +526,7 @@ pub fn run(ctx: &Ctx) -> (Stats, Spec) {
         }
     }
     let spec = Spec {
-        rule: "random formulas (<= 6 names, plain and non-ASCII / primed / long names, 0..6 free variables) x filter in every accepted spelling or absent x channel (seven: --evaluate, regular file, a regular file named `-`, stdin at once / in small pieces, a named pipe or /dev/stdin as the file; the ordering file through a named pipe too; long outputs of 8-11-variable parity / threshold functions with -t and -v in one run; --evaluate, file, stdin) x ordering file (absent, permutation, subset, superset with unused names, repeats, separators incl. keywords / comments / numbers) x {-t, -v, -t -v, -m, -b N, -r}; tables with 31..130 columns (or / and / implication chains; rows judged by three-valued evaluation, pairwise disjointness and an exact 128-bit count of covered assignments); every third case is re-run through the other two channels and every fourth with -b 1 and -b 2 (stdout must be identical). distinct = (formula, option set); non-trivial = >= 2 free variables and >= 3 printed rows.".into(),
+        rule: "random formulas (<= 6 names, plain and non-ASCII / primed / long names, 0..6 free variables) x filter in every accepted spelling or absent x channel (eight: --evaluate, regular file, a regular file named `-`, a regular file on stdin of which an earlier reader consumed the first line, stdin at once / in small pieces, a named pipe or /dev/stdin as the file; the ordering file through a named pipe too; long outputs of 8-11-variable parity / threshold functions with -t and -v in one run; --evaluate, file, stdin) x ordering file (absent, permutation, subset, superset with unused names, repeats, separators incl. keywords / comments / numbers) x {-t, -v, -t -v, -m, -b N, -r}; tables of 16-18-variable parities with 65 536 - 262 144 rows (each row a total assignment: value, uniqueness, count, -v lines); tables with 31..130 columns (or / and / implication chains; rows judged by three-valued evaluation, pairwise disjointness and an exact 128-bit count of covered assignments); every third case is re-run through the other two channels and every fourth with -b 1 and -b 2 (stdout must be identical). distinct = (formula, option set); non-trivial = >= 2 free variables and >= 3 printed rows.".into(),
         assumptions: vec![
             "with -m the printed diagram is a model: rows must partition and true rows must satisfy the formula (their number is C07's subject)".into(),
             "rejected filter spellings and inputs outside the reference's evaluable range are not judged here (C12)".into(),
@@ -436,6 +539,7 @@ pub fn run(ctx: &Ctx) -> (Stats, Spec) {
             ("channel_comparisons".into(), 100, "channels not compared".into()),
             ("long_outputs".into(), 10, "outputs beyond one buffer not exercised".into()),
             ("benchmark_comparisons".into(), 50, "-b not compared".into()),
+            ("max_rows_in_one_table".into(), 100_000, "tables with more than 65 535 rows not exercised".into()),
             ("rows_checked".into(), 3_000, "too few rows".into()),
             ("wide_tables".into(), 20, "tables with many columns not exercised".into()),
             ("distinct_nontrivial".into(), 300, "too few non-trivial invocations".into()),
@@ -452,6 +556,14 @@ pub fn replay(ctx: &Ctx, _monitor: &str, case: &Value, st: &mut Stats) {
         let ch = case.get("channel").and_then(|x| x.as_u64()).unwrap_or(0) as u8;
         let v = case.get("v").and_then(|x| x.as_bool()).unwrap_or(false);
         wide_case(ctx, st, n, &shape, filter.as_deref(), ch, v);
+        return;
+    }
+    if case.get("kind").and_then(|k| k.as_str()) == Some("many-rows") {
+        let n = case.get("n").and_then(|x| x.as_u64()).unwrap_or(17) as usize;
+        let filter = case.get("filter").and_then(|x| x.as_str()).map(|s| s.to_string());
+        let ch = case.get("channel").and_then(|x| x.as_u64()).unwrap_or(0) as u8;
+        let v = case.get("v").and_then(|x| x.as_bool()).unwrap_or(false);
+        many_rows_case(ctx, st, n, filter.as_deref(), v, ch);
         return;
     }
     let inv = Inv::from_json(case);
